@@ -1394,7 +1394,7 @@ def tasks(prop, tier, seed):
     for explicit in all_subsets("AB")[1:]:
         for alias in ALIASES:
             add_stubbed("S2K", explicit, alias)
-    s3k = [(e, a) for e in all_subsets("ABC")[1:] for a in ALIASES] if thorough else [(("A", "C"), "dot"), (("B",), "copy")]
+    s3k = ([(e, a) for e in (("A",), ("B",), ("A", "C"), ("A", "B", "C")) for a in ALIASES] if thorough else [(("A", "C"), "dot")])
     for explicit, alias in s3k:
         add_stubbed("S3K", explicit, alias)
     # shipped BMIM/BF4
